@@ -45,6 +45,8 @@ class LCtx(CCtx):
         self.hl, self.i, self.done, self.it, self.locals, self.outer = hl, i, done, it, locals_, outer
 
     def local(self, name) -> SV:
+        if name not in self.locals:
+            raise Unsupported('contract refers to local %r which the source does not define here' % name)
         return self.locals[name]
 
     def lt(self, name):
